@@ -10,7 +10,10 @@ use futures::channel::oneshot;
 use futures::task;
 
 use std::mem;
+#[cfg(not(desync_verif))]
 use std::sync::*;
+#[cfg(desync_verif)]
+use crate::verif::sync::*;
 use std::pin::{Pin};
 
 ///
@@ -101,6 +104,18 @@ impl task::ArcWake for DrainWaker {
 
         // Wake up the waker
         to_wake.map(|to_wake| to_wake.wake());
+    }
+}
+
+///
+/// Snapshot of a drain waker's state for the verification log
+///
+#[cfg(desync_verif)]
+pub (super) unsafe fn verif_drain_waker_state(ptr: *const ()) -> String {
+    match &*(ptr as *const DrainWakerState) {
+        DrainWakerState::NotWoken               => "NotWoken".to_string(),
+        DrainWakerState::Woken                  => "Woken".to_string(),
+        DrainWakerState::WillWakeWithWaker(_)   => "WillWake".to_string()
     }
 }
 
